@@ -102,6 +102,7 @@ type Stack struct {
 	FaultAt     int // index into seamCalls that fails (-1: none)
 	FaultAt2    int
 	FaultKind   FaultKind
+	FaultLabel  string // fail the first seam call with this label ("" = none)
 	faultFired  []string
 	stateWrites int
 
@@ -120,7 +121,7 @@ func (s *Stack) seam(label string, notFound error) error {
 	}
 	idx := len(s.seamCalls)
 	s.seamCalls = append(s.seamCalls, label)
-	if idx == s.FaultAt || idx == s.FaultAt2 {
+	if idx == s.FaultAt || idx == s.FaultAt2 || (s.FaultLabel != "" && s.FaultLabel == label && len(s.faultFired) == 0) {
 		s.faultFired = append(s.faultFired, label)
 		if s.FaultKind == FaultNotFound && notFound != nil {
 			return notFound
